@@ -241,4 +241,51 @@ var corpusCases = []corpusCase{
 		r.opSeek(1, all)
 		r.o.Count("corpus:seekgc-under-cursor")
 	}},
+	// PersistSync (and Persist) arriving while an asynchronous Persist is in flight — the statesync
+	// module's dao.PersistSync() against the persist timer's dao.Persist() on the same DAO. The second
+	// flush has to wait for the first (plock); if it does not, its batch goes into the tempstore of the
+	// first one and is dropped with it: new keys missing, overwritten keys stale, deleted keys back, in
+	// the cache's answers and in the backend (seed C09-m6). First batch {A:1, C:1, D:1}; while it is
+	// being written: B:2 (new), C:2 (overwrite), D deleted, then the second flush; both windows, both kinds.
+	{allKinds, func(r *runner) {
+		r.line("new 0 "+r.w.nodes[0].kind, "ok")
+		key := func(b ...byte) []byte { return append(bytes.Clone(daoPrefix), b...) }
+		r.w.addLayer(0, false)
+		r.line("layer 1 0 0", "ok")
+		gen := byte(0)
+		for _, kind := range []int{1, 2} {
+			for _, win := range []int{1, 2} {
+				gen += 2
+				r.opChangeSet(1, []kv{{key('A'), []byte{gen - 1}}, {key('C'), []byte{gen - 1}}, {key('D'), []byte{gen - 1}}})
+				r.forceOverlap = kind
+				g := gen
+				r.scriptWindow = func(w int) {
+					if w != win {
+						return
+					}
+					r.opPut(1, key('B', g), []byte{g}, false)
+					r.opPut(1, key('C'), []byte{g}, false)
+					r.opDel(1, key('D'), false)
+				}
+				r.opPausedPersist(1, false)
+				r.scriptWindow = nil
+				r.opGet(1, key('B', g))
+				r.opGet(1, key('C'))
+				r.opGet(1, key('D'))
+				r.opSeek(1, seekRange{pfx: daoPrefix})
+				// what a restarted node would find
+				r.opSeek(0, seekRange{pfx: daoPrefix})
+				r.opPersist(1, false)
+			}
+		}
+		// the same around a flush that fails
+		r.opChangeSet(1, []kv{{key('A'), []byte{0x31}}, {key('D'), []byte{0x31}}})
+		r.forceOverlap = 1
+		r.scriptWindow = func(w int) { r.opPut(1, key('E'), []byte{0x32}, false); r.opDel(1, key('A'), false) }
+		r.opPausedPersist(1, true)
+		r.scriptWindow = nil
+		r.opSeek(1, seekRange{pfx: daoPrefix})
+		r.opSeek(0, seekRange{pfx: daoPrefix})
+		r.o.Count("corpus:flush-overlap")
+	}},
 }
